@@ -17,4 +17,45 @@ CHECKS = {
                 note='Untyped all-NULL columns and column-alias lists are outside the promise (errors accepted there).'),
 }
 
+E2 = 'native (qe-native exhaustive checkers on the real functions)'
+
+CHECKS.update({
+    'C21': dict(category='exploration', engine=E1, design='3/C21',
+                technique='bounded-exhaustive enumeration of tables x aggregate statements x forced aggregation paths, differential against SQLite',
+                text='All multisets of <= 3 rows over (g,v) in {NULL,x,y}^2 for 2 (quick) / 12 (thorough) typings, every aggregate (pairs in thorough), global/grouped/emptied/filtered/above LEFT JOIN, on memory 1 batch, memory 6 batches, Parquet row-group-per-row with morsel on/off, and a 1-byte memory limit (spill path).',
+                note='SQLite is the reference; the dense-range disjoint path (hook H2) and >64k-group parallel merge are not reached by these tiny tables.'),
+    'C11': dict(category='exploration', engine=E2, design='3/C11',
+                technique='exhaustive enumeration of forged Parquet footer inventories x node counts, reference coverage/invariance/digest-sensitivity oracle',
+                text='Every sequence of <= 2 (quick) / 3 (thorough) row groups over boundary row counts and byte sizes (0..2^40), cut into 1..3 files, for node counts {1,2,3,8,64} / 1..64: contiguous exact cover, exact byte sum, canonical order, invariance under every file permutation and a second mount path, digest change under every single-attribute edit.',
+                note='Footers are forged (no data pages); enumeration reads footers only. A 64-bit digest cannot be collision-free in principle; only single-attribute edits are enumerated.'),
+    'C12': dict(category='exploration', engine=E2, design='3/C12',
+                technique='exhaustive enumeration of split-size multisets x node counts, brute-force optimal makespan',
+                text='All multisets of <= 8/12 split sizes over {0,1,2,3,5,8,13}: partition, totals, two-call determinism; the (4/3 - 1/(3N)) bound against a branch-and-bound optimum for <= 6 splits x <= 4 nodes (quick) / <= 9 x <= 6 (thorough).',
+                note='Sizes are small integers; the bound is checked in exact integer arithmetic.'),
+    'C15': dict(category='model_checking', engine=E2, design='3/C15',
+                technique='explicit-state BFS over operation histories executed on the real Membership object, compared with a reference model',
+                text='BFS to depth 4 (quick) / 6 (thorough) over set_members(every subset of 5 addresses incl. two spellings of self, a port-only difference, an unresolvable name), record_up/down, resolve errors; every transition runs on a real Membership rebuilt by replay and is compared field by field with a reference map plus the stated invariants.',
+                note='State key drops generation/timestamps/failures>2 (checked per transition instead); name resolution answers come from /etc/hosts of the sandbox.'),
+    'C16': dict(category='fault_enumeration', engine=E2, design='3/C16',
+                technique='exhaustive truncation-point enumeration of scripted HTTP responses over a real loopback socket',
+                text='~150 responses (status lines x Content-Length variants x bodies) cut at every byte offset (quick thins offsets > 90), written in one or two segments, closed or held open; the real http_client must return the reference parse or an error, never a short body, never late.',
+                note='Loopback only; timing slack 150-400 ms over the 200 ms timeout.'),
+    'C38': dict(category='exploration', engine=E2, design='3/C38',
+                technique='exhaustive enumeration of dimensions x lane patterns x NULL masks x slices against an f64 reference formula',
+                text='Dimensions 1..40 plus every 8-lane/power-of-two boundary to 1024 (quick) / all 1..1024 (thorough), 5 lane patterns, 1..4 rows with every NULL mask (NaN-poisoned), slice offsets 0/1/3, literal and column query, 4 kinds; mismatched dimensions must be errors.',
+                note='Values are small exactly-representable floats; tolerance 1e-5 relative; zero-vector cosine follows the code convention.'),
+    'C40': dict(category='exploration', engine=E2, design='3/C40',
+                technique='exhaustive enumeration of short strings over a special-character alphabet through the real formatter, strict CSV/JSON re-parse',
+                text='All strings of length <= 3 (quick) / 4 (thorough) over 10 special characters as cells, under plain and hostile column names, beside NULL/number/boolean cells, in grids and as one large result; the output must re-parse to exactly the displayed cells.',
+                note='Function level on src/cli/output.rs included by #[path]; REPL wiring in main.rs is outside the quick tier.'),
+    'C41': dict(category='exploration', engine=E2, design='3/C41',
+                technique='exhaustive enumeration of chunkings of short bodies and of all byte strings up to a length, against a reference RFC 7230 decoder',
+                text='Every body of length <= 4 x every chunking x extensions x hex styles; every byte string of length <= 7 (quick) / 9 (thorough) over 8 framing-relevant bytes; huge sizes; the real dechunk (hook H6) must agree with the reference and never panic.',
+                note='Leniencies the RFC leaves open (leading +, inner whitespace, trailers) are outside the alphabet.'),
+    'C42': dict(category='exploration', engine=E2, design='3/C42',
+                technique='exhaustive enumeration of CPU-id sets x renderings (grouping, order, whitespace, junk) and of all (work, pool) pairs',
+                text='Every subset of 13 CPU ids of size <= 4 (quick) / 5 (thorough) in every range grouping, token order and whitespace style, with duplicates, overlaps and junk tokens at every position; workers_for over all pairs in 0..70.',
+                note='parse_cpulist reached through hook H5.'),
+})
+
 PENDING_REASON = 'check not built yet in this round (planned in DESIGN.md section 3); not claimed until it exists'
